@@ -69,7 +69,8 @@ fn new_consumed() -> Consumed {
 }
 
 fn next_size(sizes: &[u32], i: &mut usize) -> usize {
-    let s = if sizes.is_empty() { 8192 } else { sizes[*i % sizes.len()] as usize };
+    // a pattern of only zero-length reads can never make progress: it is not a consumer, treat it as the default
+    let s = if sizes.is_empty() || sizes.iter().all(|&x| x == 0) { 8192 } else { sizes[*i % sizes.len()] as usize };
     *i += 1;
     s
 }
@@ -432,7 +433,9 @@ impl Prop for C08 {
             for i in 0..c.buf_sizes.len() {
                 let mut b = c.buf_sizes.clone();
                 b.remove(i);
-                out.push(Case { buf_sizes: b, ..c.clone() });
+                if b.iter().any(|&x| x != 0) {
+                    out.push(Case { buf_sizes: b, ..c.clone() });
+                }
             }
         }
         for msg in shrink_mmsg(&c.msg) {
